@@ -498,6 +498,14 @@ func applyJailOp(h *mailbox.DirHandler, mbox string, op Op) string {
 		}
 		p := filepath.Join(mbox, parts[0], string(op.MID)+mailbox.Ext)
 		os.Remove(p)
+		if t, hard := strings.CutPrefix(parts[1], "hard:"); hard {
+			// a second NAME of a file kept elsewhere (what `cp -al`, rsnapshot or rsync --link-dest leave behind): the mailbox
+			// entry is a regular file, its inode is shared with the world outside
+			if err := os.Link(t, p); err != nil {
+				return "skipped: cannot plant the hard link: " + err.Error()
+			}
+			return "ok"
+		}
 		if err := os.Symlink(parts[1], p); err != nil {
 			return "skipped: cannot plant the link: " + err.Error()
 		}
